@@ -173,6 +173,29 @@ Definition chk_apply_split (rtol : float) (e : run_env) (T : linop) (arrs : carr
        (den (mk_arr CFOps arrs) (mk_scal CFOps scals) (mk_orc CFOps mats) retab T (of_list (0, 0)%float (ishape_of T) xin)))
     expect.
 
+(* the same two checkers with an ABSOLUTE tolerance floor: a tree such as  A - Conj (Conj A)  cancels to (almost) zero, and a
+   tolerance relative to the size of the OUTPUT alone would then demand bit-exactness of rounding noise.  [atol] is supplied by the
+   harness as rtol * (magnitude of the input) * (a fixed gain allowance). *)
+Definition close_list_a (atol rtol : float) (model impl : list CF) : bool :=
+  let sc := fmax (RunC05.maxabs impl) (RunC05.maxabs model) in
+  all2 (cfclose (atol + rtol * sc)%float rtol) model impl.
+
+Definition chk_apply_std_a (atol rtol : float) (e : run_env) (T : linop) (arrs : carrs) (scals : list (Z * CF)) (mats : cmats)
+           (nfb : Z) (xin expect : list CF) : bool :=
+  forallb RunC05.row_ok (r_tab e) && wf T && leaves_covered e mats T && (n_fallback e T =? nfb) &&
+  close_list_a atol rtol (run_apply_std e T arrs scals mats xin) expect.
+
+Definition chk_apply_split_a (atol rtol : float) (e : run_env) (T : linop) (arrs : carrs) (scals : list (Z * CF)) (mats : cmats)
+           (leafcases : list leafcase) (nfb : Z) (xin expect : list CF) : bool :=
+  forallb RunC05.row_ok (r_tab e) && wf T && (n_fallback e T =? nfb) &&
+  forallb (fun L => in_mats mats L &&
+                    (negb (std_leaf_ok e L) || existsb (fun c => linop_eqb (fst c) L) leafcases)) (opaque_leaves T) &&
+  forallb (chk_leaf_std rtol e arrs) leafcases &&
+  close_list_a atol rtol
+    (tabulate (oshape_of T)
+       (den (mk_arr CFOps arrs) (mk_scal CFOps scals) (mk_orc CFOps mats) retab T (of_list (0, 0)%float (ishape_of T) xin)))
+    expect.
+
 (* ---- exact: Gaussian-integer trees whose only library-backed leaves are convolutions (the model is exact over Z[i]) ---- *)
 Definition garrs := list (Z * (list Z * list GZ)).
 Definition chk_apply_std_G (T : linop) (arrs : garrs) (scals : list (Z * GZ)) (xin expect : list GZ) : bool :=
